@@ -315,6 +315,16 @@ ROUND9 = {
 }
 
 
+# round 10 (DESIGN.md 9.14)
+ROUND10 = {
+    "C03": " Round 10: two juxtaposed parenthesised groups are the AND of their ORs; smart case on concrete texts (mixed case is case-sensitive).",
+    "C07": " Round 10: (R6) the ZID-position obligations of C05.R2 are adopted (the ZID is written directly behind the item prefix).",
+    "C10": " Round 10: hidden-metadata scenarios with look-alike tags in the body and with the inherited tags wrapped in punctuation.",
+    "C17": " Round 10: punctuation on either side of a target (ten wrappers x three targets).",
+    "C18": " Round 10: only group members are run through str.format (decided where braces make it observable).",
+}
+
+
 def main() -> None:
     props = [json.loads(l) for l in (VERIF / "properties.jsonl").read_text().splitlines() if l.strip()]
     checks = []
@@ -323,7 +333,7 @@ def main() -> None:
         pid = p["id"]
         if pid in CHECKS:
             tech, text, note, ref = CHECKS[pid]
-            text = text + ADDENDA.get(pid, "") + ROUND34.get(pid, "") + ROUND5.get(pid, "") + ROUND6.get(pid, "") + ROUND7.get(pid, "") + ROUND8.get(pid, "") + ROUND9.get(pid, "") + (METHOD if pid in ("C01", "C02", "C03", "C05", "C06", "C07", "C08", "C09", "C10", "C11", "C12", "C13", "C14", "C15", "C16", "C17", "C18") else "")
+            text = text + ADDENDA.get(pid, "") + ROUND34.get(pid, "") + ROUND5.get(pid, "") + ROUND6.get(pid, "") + ROUND7.get(pid, "") + ROUND8.get(pid, "") + ROUND9.get(pid, "") + ROUND10.get(pid, "") + (METHOD if pid in ("C01", "C02", "C03", "C05", "C06", "C07", "C08", "C09", "C10", "C11", "C12", "C13", "C14", "C15", "C16", "C17", "C18") else "")
             checks.append(
                 {
                     "property_id": pid,
